@@ -417,6 +417,8 @@ class Evaluator:
                     return {"list": list, "tuple": tuple, "set": set, "dict": dict, "OrderedDict": dict, "frozenset": frozenset}[f.id](*args)
                 if f.id == "str":
                     return str(args[0])
+                if f.id == "type" and f.id not in self.env and len(args) == 1 and not e.keywords:
+                    return type(args[0])
                 if f.id == "format" and f.id not in self.env and not e.keywords and args and all(type(a) in (str, int, float, bool) for a in args):
                     try:
                         return format(*args)
